@@ -618,6 +618,9 @@ def run(eng, run):
     check_tbl(eng, run)
     check_copy(eng, run)
     check_esc(eng, run)
+    from rules.c05 import check_codec
+    from sa.report import RuleAlias
+    check_codec(eng, RuleAlias(run, "C01.tbl"))
     run.tables["remainder_exceptions"] = REM_EXCEPTIONS
 
 
